@@ -2,7 +2,8 @@
       - Part 4: the two earlier theorems as special cases: a history without key removes
         ([mohist_ok_nk]) and a history without nested removes satisfying [km_once] ([mohist_ok_km])
         are histories of the fragment, and [mapor_spec_kmn] is [mapor_spec_nk] resp. [mapor_spec_km]
-        there, for EVERY knowledge set;
+        there, for EVERY knowledge set; the member sentence of C05 in the fragment
+        ([mapor_member_iff_kmn]);
       - Part 5: a closed non-vacuity example that combines both mechanisms (a key remove parked at
         map level travelling in a merge; a nested remove parked inside the nested set), and closed
         witnesses that neither [km_once] (finding T2) nor [kmn_addonly] (finding T3) can be dropped. *)
@@ -124,6 +125,36 @@ Proof.
 Qed.
 Print Assumptions mapor_refine_nk_from_kmn.
 Print Assumptions mapor_refine_km_from_kmn.
+
+(** * the member sentence (C05) in the fragment: [m] is in the set under [k] iff some known add of
+    [m] under [k] is covered neither by a known key remove naming [k] (pending or not) nor by a
+    known nested remove under [k] naming [m] (parked or not) *)
+Theorem mapor_member_iff_kmn H s K k m : mohist_ok_kmn H → km_once H → kmn_addonly H → moreach_kmn H s K →
+  m ∈ dom (mo_state_entries s k) ↔
+    ∃ d ms, MUp d k (OAdd d ms) ∈ known_ops H K ∧ m ∈ ms ∧
+      ¬ (∃ c ks, MRm c ks ∈ known_ops H K ∧ k ∈ ks ∧ dcounter d <= vget c (dactor d)) ∧
+      ¬ (∃ d1 c ms', MUp d1 k (ORm c ms') ∈ known_ops H K ∧ m ∈ ms' ∧ dcounter d <= vget c (dactor d)).
+Proof.
+  intros Hok Hkm Hao Hr. pose proof (mohist_kmn_maphist H Hok) as Hmap.
+  pose proof (mohist_kmn_wf (op_val <$> H) H Hok (kmn_cond_hist H Hkm Hao)) as Hwf.
+  rewrite (mapor_values_refine_kmn H Hok Hkm Hao s K k Hr), elem_of_dom, mo_entries_lookup.
+  set (os := known_ops H K). split.
+  - intros Hs. destruct (mo_live_dots os k m) as [|d l] eqn:El.
+    { unfold mo_entry in Hs. rewrite El, dots_clock_nil in Hs. by destruct Hs. }
+    assert (d ∈ mo_live_dots os k m) as Hd by (rewrite El; by left).
+    apply elem_of_mo_live_dots in Hd as [(d0 & ms & Hin & Hm) Hc]. apply mo_covered_false in Hc.
+    pose proof (mo_shape_known _ H Hwf K d0 k d ms Hin) as Heq. subst d0.
+    exists d, ms. split_and!; [done|done|tauto|tauto].
+  - intros (d & ms & Hin & Hm & Hn1 & Hn2).
+    assert (d ∈ mo_live_dots os k m) as Hd.
+    { apply elem_of_mo_live_dots. split; [by exists d, ms|]. apply mo_covered_false. tauto. }
+    pose proof (hops_pos H Hmap d k _ (known_hops H K _ Hin)) as Hpos.
+    assert (mo_entry os k m ≠ ∅) as Hne.
+    { apply (vne_get _ (dactor d)). rewrite mo_entry_get.
+      pose proof (max_ctr_ge _ _ _ Hd eq_refl). lia. }
+    apply vis_empty_false in Hne. rewrite Hne. by eexists.
+Qed.
+Print Assumptions mapor_member_iff_kmn.
 
 (** * Part 5: non-vacuity.  Three actors, two keys.
     Key 7 (named by a key remove): actors 1 and 2 add once each (members 10, 20; ops 0, 1); actor 3,
